@@ -4,8 +4,8 @@
    moved to another chunk, through WithoutShrink): the new block starts with the old contents,
    a zeroed grow has a zero tail, and no byte outside the returned block changes; with the
    invariant, growing a block leaves the bytes of every OTHER live block alone.
-   PARTIAL: the analogous "other blocks" corollary for shrink, and commit's moves (C15), are
-   stated per operation only. *)
+   growing or shrinking one block leaves the bytes of every OTHER live block alone.
+   PARTIAL: commit's moves (C15) are stated per operation only. *)
 From Coq Require Import ZArith List Bool.
 From BS Require Import Word BumpSpec ChunkSpec Arena ArenaInv ArenaMem ArenaMem2.
 Import ListNotations.
@@ -84,7 +84,17 @@ Theorem C02_grow_keeps_other_blocks :
   mem (fst (step c s0 (OGrow h ws b nsize nalign zeroed) r)) a = mem s0 a.
 Proof. exact grow_keeps_other_blocks. Qed.
 
+Theorem C02_shrink_keeps_other_blocks :
+  forall c s0 h ws b nsize nalign r blk b',
+  cfg_ok c -> fix_without_shrink c = true -> inv c s0 -> valid_layout nsize nalign -> resp_ok c s0 nsize nalign r ->
+  find_block (tick s0) b = Some blk -> 0 <= nsize <= bsize blk ->
+  In b' (live s0) -> bid b' <> b ->
+  forall a, bptr b' <= a < bptr b' + bsize b' ->
+  mem (fst (step c s0 (OShrink h ws b nsize nalign) r)) a = mem s0 a.
+Proof. exact shrink_keeps_other_blocks. Qed.
+
 Print Assumptions C02_alloc_frame.
+Print Assumptions C02_shrink_keeps_other_blocks.
 Print Assumptions C02_grow_contents_and_frame.
 Print Assumptions C02_shrink_contents_and_frame.
 Print Assumptions C02_grow_keeps_other_blocks.
